@@ -111,7 +111,7 @@ class BuildError(Exception):
 # sharded execution of svh-style batch runners
 
 
-def _limits(mem_gb):
+def _limits(mem_gb, cpu_s=None):
     def f():
         lim = mem_gb << 30
         try:
@@ -119,6 +119,9 @@ def _limits(mem_gb):
         except Exception:
             pass
         resource.setrlimit(resource.RLIMIT_CORE, (0, 0))
+        if cpu_s:
+            # CPU seconds, not wall clock: independent of machine load (SIGXCPU = signal 24 at the soft limit)
+            resource.setrlimit(resource.RLIMIT_CPU, (cpu_s, cpu_s + 5))
 
     return f
 
@@ -140,7 +143,7 @@ def workdir(name):
     return d
 
 
-def _run_proc(binary, mode, infile, outfile, opts, timeout, mem_gb, env_extra, asan_like, prefix=None):
+def _run_proc(binary, mode, infile, outfile, opts, timeout, mem_gb, env_extra, asan_like, prefix=None, cpu_s=None):
     env = dict(BASE_ENV)
     env["RUST_BACKTRACE"] = "0"
     if env_extra:
@@ -153,7 +156,7 @@ def _run_proc(binary, mode, infile, outfile, opts, timeout, mem_gb, env_extra, a
             stdout=subprocess.PIPE,
             stderr=subprocess.PIPE,
             timeout=timeout,
-            preexec_fn=None if asan_like else _limits(mem_gb),
+            preexec_fn=None if asan_like else _limits(mem_gb, cpu_s),
         )
         return p.returncode, p.stderr.decode("utf-8", "replace")[-6000:]
     except subprocess.TimeoutExpired as e:
@@ -199,6 +202,7 @@ def run_cases(
     confirm_crashes=True,
     per_case_timeout=60,
     prefix=None,
+    cpu_limit_alone=None,
 ):
     """Run `cases` (dicts with unique 'id') through `binary mode`, sharded over processes.
     A process that dies is attributed to the first started-but-unfinished case; that case is
@@ -251,7 +255,8 @@ def run_cases(
                 cout = os.path.join(wd, "cout_%d_%d.jsonl" % (si, rnd))
                 with open(cin, "w") as f:
                     f.write(json.dumps(culprit) + "\n")
-                rc2, err2 = _run_proc(binary, mode, cin, cout, opts, per_case_timeout, mem_gb, env_extra, asan_like, prefix)
+                opts_alone = {k: v for k, v in opts.items() if k != "case_timeout_s"}  # alone: no wall-clock watchdog
+                rc2, err2 = _run_proc(binary, mode, cin, cout, opts_alone, per_case_timeout, mem_gb, env_extra, asan_like, prefix, cpu_s=cpu_limit_alone)
                 res2, _, done2 = _read_out(cout)
                 if done2 and rc2 == 0:
                     # not reproducible alone
